@@ -29,18 +29,18 @@ type FileCase struct {
 
 // stages that can follow the creation of a file
 var stageNames = []string{
-	"append",            // one more engine session appending records
-	"append-sync",       // records appended and synced, writer still open while the name is read
-	"inline",            // overwrite until the write path compacts inline
-	"close",             // fragmentation that only the close path sees
-	"loadheal",          // fragmented file healed by the next load
-	"force",             // chronicler.ForceCompaction (CompactSwamp RPC)
-	"compactor",         // v2.Compactor.Compact at the default threshold
-	"compactor-force",   // v2.Compactor.ForceCompact
+	"append",             // one more engine session appending records
+	"append-sync",        // records appended and synced, writer still open while the name is read
+	"inline",             // overwrite until the write path compacts inline
+	"close",              // fragmentation that only the close path sees
+	"loadheal",           // fragmented file healed by the next load
+	"force",              // chronicler.ForceCompaction (CompactSwamp RPC)
+	"compactor",          // v2.Compactor.Compact at the default threshold
+	"compactor-force",    // v2.Compactor.ForceCompact
 	"compactor-ifneeded", // v2.Compactor.CompactIfNeeded
-	"cli-compact",       // hydraidectl compact (compactSwamp)
-	"delete-all-force",  // every record deleted, then a forced compaction: file without blocks
-	"fmtmigrate",        // hydraidectl migrate v2-migrate-format (migrateFileV2Format)
+	"cli-compact",        // hydraidectl compact (compactSwamp)
+	"delete-all-force",   // every record deleted, then a forced compaction: file without blocks
+	"fmtmigrate",         // hydraidectl migrate v2-migrate-format (migrateFileV2Format)
 	"fmtmigrate-stale-empty",
 	"fmtmigrate-stale-cut",
 	"fmtmigrate-stale-full",
